@@ -13,6 +13,7 @@ Decided (DESIGN.md C32, E.3):
                     a verified parse; process_*_to_identity is called only with such a carrier.
 Not decided: the signature scheme and key revocation (C34), clock handling, replication delay semantics of the grace window.
 """
+import re
 from .lib.hir import *
 from .lib.x_g6auth import *
 from .lib import pathcond as pc
@@ -141,6 +142,7 @@ def describe_site(s):
 def run(ctx):
     _run_main(ctx)
     token_lookup_hides_deleted(ctx)
+    validity_window_bounds_not_swapped(ctx)
 
 
 def _run_main(ctx):
@@ -351,3 +353,35 @@ def token_lookup_hides_deleted(ctx):
     ctx.floor(R, "hidden-ignoring lookups on these paths", n_hidden, 2)
     if not any(v["rule"] == R for v in ctx.violations):
         ctx.ok(R, "kanidmd_lib::idm::server::IdmServerTransaction", "no-raw-filter", f"{len(names)} functions, {n_hidden} lookups, all hide deleted entries")
+
+
+# ---------------------------------------------------------------------------------------------------------------------
+# Account::check_within_valid_time(now, valid_from, expire) takes two Option<&OffsetDateTime> of the same type: a swapped
+# call compiles, and with one bound set (what disabling an account produces) accepts exactly the accounts it must refuse.
+# Every call site must feed the lower bound from account_valid_from / .valid_from and the upper from account_expire / .expire.
+
+def validity_window_bounds_not_swapped(ctx):
+    from .lib.x_fields import expr_sources
+    F = ctx.facts
+    CW = "kanidmd_lib::idm::account::Account::check_within_valid_time"
+    LOWER = {"attr:AccountValidFrom", "field:valid_from"}
+    UPPER = {"attr:AccountExpire", "field:expire"}
+    callers = sorted({re.sub(r"::\{closure#\d+\}", "", c) for (c, callee, _r, _l, _e, _s) in F.calls(LIB) if callee == CW})
+    n = 0
+    for cn in callers:
+        fn = F.fn(LIB, cn)
+        if fn is None or fn.get("test"):
+            continue
+        for c in calls_in(fn["body"], "Account::check_within_valid_time"):
+            if len(c.get("args", [])) != 3:
+                continue
+            n += 1
+            lo = expr_sources(fn["body"], c["args"][1]) & (LOWER | UPPER)
+            hi = expr_sources(fn["body"], c["args"][2]) & (LOWER | UPPER)
+            ok = bool(lo) and lo <= LOWER and bool(hi) and hi <= UPPER
+            ctx.check(ok, "K5-validity-bounds", fn["fn"], "check_within_valid_time(valid_from, expire)",
+                      f"lower <- {sorted(lo)}, upper <- {sorted(hi)}",
+                      f"check_within_valid_time is called with lower bound from {sorted(lo) or 'nothing recognised'} and upper bound from {sorted(hi) or 'nothing recognised'}: "
+                      "the validity window is tested with its bounds swapped or from the wrong attribute, so an expired (disabled) or not-yet-valid account passes",
+                      file=fn["file"], line=c.get("line"))
+    ctx.floor("K5-validity-bounds", "check_within_valid_time call sites", n, 4)
